@@ -210,7 +210,7 @@ impl World {
         let t = &word(t);
         let name = ENT_NAMES[e as usize];
         let q = format!("query {{ {}(search($t)) {{ id txt tag }} }}", name).replace(" tag", if e == 0 { " tag" } else { "" });
-        let res = self.sites[s].inst.svc.query(&q, Some(params(&[("t", t.to_string())]))).await.map_err(|e| class(&e))?;
+        let res = self.sites[s].inst.svc.query(&q, Some(params(&[("t", t.to_string())]))).await.map_err(|e| { eprintln!("# query error: {:?}", e); class(&e) })?;
         let v: serde_json::Value = serde_json::from_str(&res).map_err(|e| e.to_string())?;
         let mut hits = vec![];
         for row in v[name].as_array().cloned().unwrap_or_default() {
@@ -220,7 +220,7 @@ impl World {
         hits.sort();
         // expectation: every row of the entity (plain query, no search) whose current text fields contain t
         let q2 = format!("query {{ {} {{ id txt tag }} }}", name).replace(" tag", if e == 0 { " tag" } else { "" });
-        let res = self.sites[s].inst.svc.query(&q2, None).await.map_err(|e| class(&e))?;
+        let res = self.sites[s].inst.svc.query(&q2, None).await.map_err(|e| { eprintln!("# query error: {:?}", e); class(&e) })?;
         let v: serde_json::Value = serde_json::from_str(&res).map_err(|e| e.to_string())?;
         let mut expect = vec![];
         for row in v[name].as_array().cloned().unwrap_or_default() {
@@ -240,7 +240,7 @@ impl World {
         let w = &word(t);
         let num = |v: &serde_json::Value| self.row_of_uid.get(v["id"].as_str().unwrap_or("")).copied().unwrap_or(u64::MAX);
         let q = "query { Doc { id kids(search($t)) { id } } }";
-        let res = self.sites[s].inst.svc.query(q, Some(params(&[("t", w.to_string())]))).await.map_err(|e| class(&e))?;
+        let res = self.sites[s].inst.svc.query(q, Some(params(&[("t", w.to_string())]))).await.map_err(|e| { eprintln!("# query error: {:?}", e); class(&e) })?;
         let v: serde_json::Value = serde_json::from_str(&res).map_err(|e| e.to_string())?;
         let mut hits = vec![];
         for p in v["Doc"].as_array().cloned().unwrap_or_default() {
@@ -252,7 +252,7 @@ impl World {
         }
         hits.sort();
         let q2 = "query { Doc(nullable(kids)) { id kids { id txt tag } } }";
-        let res = self.sites[s].inst.svc.query(q2, None).await.map_err(|e| class(&e))?;
+        let res = self.sites[s].inst.svc.query(q2, None).await.map_err(|e| { eprintln!("# query error: {:?}", e); class(&e) })?;
         let v: serde_json::Value = serde_json::from_str(&res).map_err(|e| e.to_string())?;
         let mut expect = vec![];
         for p in v["Doc"].as_array().cloned().unwrap_or_default() {
